@@ -1,4 +1,5 @@
 import GopatchModel.Spec.FrameFile
+import GopatchModel.Spec.FrameImports
 namespace Gopatch.C05
 open Gopatch
 
@@ -103,6 +104,45 @@ theorem syncImports_same (tree : V) (l : List (Option String × String))
     intro x hx
     simp [hne x hx]
   · rfl
+
+/-- **Frame of a whole change that also edits the imports.** One change applied to a file in which every node has an
+identity, where no site is an element of the file's declaration list itself (sites lie inside declarations), the package
+clause left as it is, the import list changed in whatever way the change dictates: the declarations of the result other than
+import declarations are, in order and with the slots of the sites blanked, those the replacement loop left - although
+their indexes in the declaration list may have shifted - and those are, index by index, the original declarations with
+the same slots blanked. -/
+theorem change_with_import_edits_keeps_the_other_declarations (c : Change) (f : FileM) (d : Data) (sites : List Site)
+    (tree1 : V) (imps : List (Option String × String)) (names : List String)
+    (t : String) (id : Nat) (doc pk nm : V) (e : String) (decls rest : List V)
+    (hf : f.tree = .ptr t id (doc :: pk :: nm :: .slice e decls :: rest))
+    (hm : fileMatch c f = some (d, sites)) (hp : c.plus.pkg = "")
+    (hs : applySites c c.assoc sites f.tree = .ok tree1)
+    (hi : addImports c d c.plus.imports f.imports [] = .ok (imps, names))
+    (hz : hasId 0 f.tree = false)
+    (hfile : ∀ s ∈ sites, s.parent = id → s.field ≠ 3) :
+    ∃ f', applyChange c f = .ok f' sites.length ∧
+      (otherDecls f'.tree).map (maskP (slotsOf sites)) = ((declsOf tree1).filter notImport).map (maskP (slotsOf sites)) ∧
+      maskPs (slotsOf sites) (declsOf tree1) = maskPs (slotsOf sites) decls := by
+  have hP : ∀ idx, slotsOf sites id 3 idx = false := by
+    intro idx
+    simp only [slotsOf, List.any_eq_false, Bool.and_eq_true, beq_iff_eq, not_and]
+    intro s hs hpar
+    exact absurd hpar.2 (hfile s hs hpar.1)
+  have hmask := change_rewrites_only_its_sites c c.assoc sites f.tree tree1 hs
+  rw [hf] at hmask
+  obtain ⟨a, b, c3, ds1, rest1, ht1, hds⟩ := mask_file_shape (slotsOf sites) t id doc pk nm e decls rest hP tree1 hmask
+  have hin : ∀ s ∈ sites, slotsOf sites s.parent s.field s.index = true := fun s hs => slotsOf_mem sites s hs
+  have hfresh := applySites_fresh c c.assoc (slotsOf sites) sites f.tree tree1 hin (fresh_of_noZero _ f.tree noq hz) hs
+  have hpk : (c.plus.pkg != "") = false := by simp [hp]
+  refine ⟨{ pkg := f.pkg, imports := cleanupImports d tree1 names (d.matched.getD []) imps,
+            tree := (renumV (syncImports tree1 f.imports (cleanupImports d tree1 names (d.matched.getD []) imps)) f.nextId).1,
+            nextId := (renumV (syncImports tree1 f.imports (cleanupImports d tree1 names (d.matched.getD []) imps)) f.nextId).2 }, ?_, ?_, ?_⟩
+  · simp only [applyChange, hm, hpk, Bool.false_eq_true, ↓reduceIte, hs, hi]
+  · subst ht1
+    simp only [declsOf]
+    exact sync_then_numbering_keeps_others (slotsOf sites) t id a b c3 e ds1 rest1 f.imports _ f.nextId hP hfresh
+  · subst ht1
+    simpa [declsOf] using hds
 
 /-- the package clause changes only if the '+' side names a package -/
 theorem package_kept (c : Change) (f f' : FileM) (k : Nat) (h : applyChange c f = .ok f' k) (hp : c.plus.pkg = "") :
